@@ -285,7 +285,8 @@ static int run_c12(uint64_t seed, long scenarios) {
   vrt::Rng r(seed);
   static const char *mn[] = {"pc_seq", "pc_kd", "mesh_eb", "mesh_seq"};
   for (long sc = 0; sc < scenarios; ++sc) {
-    const int q = r.range(4, 24);
+    // the coarsest grids (1, 2, 3 bits: two, four, eight values per axis) in an eighth of the scenarios
+    const int q = sc % 8 == 5 ? 1 + (int)((sc / 8) % 3) : r.range(4, 24);
     const float mag = magnitude(r, r.range(1, 4));
     const int nb = 16, ni = 40;   // border / interior points per tile
     std::vector<std::vector<float>> border(nb, std::vector<float>(3));
